@@ -151,6 +151,15 @@ func genC15(r *rand.Rand, tier string, env *Env) []Case {
 		if len(ct.incl) > 0 {
 			cmds = append(cmds, []string{"regex", "format", ct.incl[0]})
 		}
+		// arguments with path elements: format stays with .ra files under regex-assembly, inside the root (D29)
+		var conf string
+		for path := range ct.t {
+			if strings.HasPrefix(path, "rules/") && strings.HasSuffix(path, ".conf") && (conf == "" || path < conf) {
+				conf = path
+			}
+		}
+		cmds = append(cmds, []string{"regex", "format", "../../../x.ra"}, []string{"regex", "format", "../../" + conf}, []string{"regex", "format", "../notes.txt"},
+			[]string{"regex", "format", "readme.md"}, []string{"regex", "format", "../" + ra.arg + ".ra"}, []string{"regex", "format", "-c", "../../../x.ra"})
 		// targets that do not exist: nothing may be created for them
 		cmds = append(cmds, []string{"regex", "format", "-c", "999999"}, []string{"regex", "format", "999999"}, []string{"regex", "format", "-c", "nosuchinclude"},
 			[]string{"regex", "generate", "999999"}, []string{"regex", "update", "999999"}, []string{"regex", "compare", "999999"},
@@ -948,11 +957,64 @@ func genC18(r *rand.Rand, tier string, env *Env) []Case {
 		}
 		cases = append(cases, Case{Kind: "root-search", Ops: []Op{{"root.find", args}}})
 	}
+	// the lexical path functions the commands apply to arguments: every path over {a, b, ., /} up to length 5 (quick) / 7
+	// (thorough), batched, plus longer random ones and joins of up to three elements
+	cases = append(cases, pathCases(r, tier)...)
 	for _, rc := range rcs {
 		if !strings.HasPrefix(rc.start, "a/x/inner/regex-assembly") && !strings.HasPrefix(rc.start, "a/regex-assembly") {
 			cases = append(cases, Case{Kind: "root-resolution-linked-markers", Oracles: []Op{{"c18.root", [][]byte{encodeTree(layout), []byte(rc.start), []byte(rc.want), []byte(rc.cwdWant), []byte("linked-markers")}}}})
 		}
 		cases = append(cases, Case{Kind: "root-resolution", Oracles: []Op{{"c18.root", [][]byte{encodeTree(layout), []byte(rc.start), []byte(rc.want), []byte(rc.cwdWant)}}}})
+	}
+	return cases
+}
+
+func pathCases(r *rand.Rand, tier string) []Case {
+	maxLen := 5
+	if tier == "thorough" {
+		maxLen = 7
+	}
+	alpha := []byte{'a', 'b', '.', '/'}
+	var all []string
+	var rec func(cur []byte)
+	rec = func(cur []byte) {
+		all = append(all, string(cur))
+		if len(cur) == maxLen {
+			return
+		}
+		for _, c := range alpha {
+			rec(append(append([]byte{}, cur...), c))
+		}
+	}
+	rec(nil)
+	var cases []Case
+	for i := 0; i < len(all); i += 64 {
+		var ops []Op
+		for _, p := range all[i:min(len(all), i+64)] {
+			ops = append(ops, Op{"path.clean", [][]byte{[]byte(p)}})
+		}
+		cases = append(cases, Case{Kind: "path-clean-exhaustive", Ops: ops})
+	}
+	elems := []string{"", "a", "..", ".", "/", "a/b", "../x", "regex-assembly", "include", "x.ra", "a//b/", "/abs", "./rel", "é", "..."}
+	for i := 0; i < 40; i++ {
+		var ops []Op
+		for k := 0; k < 10; k++ {
+			n := 1 + r.Intn(3)
+			var es [][]byte
+			for j := 0; j < n; j++ {
+				es = append(es, []byte(pick(r, elems)))
+			}
+			ops = append(ops, Op{"path.join", es})
+			var sb strings.Builder
+			for j := 0; j < 2+r.Intn(8); j++ {
+				sb.WriteString(pick(r, elems))
+				if chance(r, 0.6) {
+					sb.WriteString("/")
+				}
+			}
+			ops = append(ops, Op{"path.clean", [][]byte{[]byte(sb.String())}})
+		}
+		cases = append(cases, Case{Kind: "path-join", Ops: ops})
 	}
 	return cases
 }
@@ -1293,7 +1355,7 @@ func init() {
 		Assume: []string{"known finding D19: update --all / format --all are not atomic — targets of assembly files preceding the faulty one (format: any other file) are already rewritten when the run fails"}}
 	properties["C08"] = &Property{ID: "C08", LeanMods: []string{"CrsProps.C08", "CrsProps.C12Cli"}, Corr: "K10 (tree after --all vs tree after the single invocations in a random order; compare verdict lines)", Workers: 8,
 		Rule: treeRule + "update/format/compare --all against the sequence of single invocations in 2 (quick) / 6 (thorough) random orders; assembly files share stored names and definition names; non-trivial = trees with at least two assembly files; distinct by (tree, command, order)", Gen: genC08}
-	properties["C18"] = &Property{ID: "C18", LeanMods: []string{"CrsProps.C18", "CrsProps.CliRun"}, Corr: "K9 (parseRuleId vs Crs.Update.parseRuleId), K10 (generate ARG vs generate -, nested roots)", Workers: 8,
+	properties["C18"] = &Property{ID: "C18", LeanMods: []string{"CrsProps.C18", "CrsProps.CliRun", "CrsProps.C18Path"}, Corr: "K9 (parseRuleId vs Crs.Update.parseRuleId), K10 (generate ARG vs generate -, nested roots)", Workers: 8,
 		Rule: "argument strings around the grammar NNNNNN[-chainK][.ra] (other digit counts, K in 0..300 and beyond uint8/uint64, extra suffixes, leading zeros, non-ASCII digits); trees with files for accepted and rejected spellings; nested CRS roots with start directories at depth 0..4 below or beside a root, absolute and relative -d, and no -d; non-trivial = every case; distinct by argument / start directory", Gen: genC18,
 		Assume: []string{"the root search never tests `/` itself (noted limit of findRootDirectory)"}}
 	properties["C17"] = &Property{ID: "C17", LeanMods: []string{"CrsProps.C17"}, Corr: "K2, K5, K6, K8 with one line of 64 KiB ± 1 … 1 MiB at every scanner site", Workers: 6,
